@@ -326,6 +326,8 @@ impl GrammarBuilder {
                 }
 
                 if let Some(ConstVal::String(kind)) = new_production.meta.remove("kind") {
+                    // Production kind is used in generated identifiers
+                    self.check_identifier(&kind)?;
                     new_production.kind = Some(kind.into());
                 }
 
